@@ -508,6 +508,15 @@ func (rp *ReverseProxy) ServeHTTP(rw http.ResponseWriter, outreq *http.Request, 
 		//
 		// Most of the time forceSetTrailers should be false.
 		forceSetTrailers := len(res.Trailer) != announcedTrailerKeyCount
+		if forceSetTrailers {
+			// Unannounced trailers can only be delivered with chunked
+			// framing. A short body may still sit in net/http's buffer, in
+			// which case it would be sent with a Content-Length and the
+			// trailers silently dropped: commit the response as chunked now.
+			if fl, ok := rw.(http.Flusher); ok {
+				fl.Flush()
+			}
+		}
 		shallowCopyTrailers(rw.Header(), res.Trailer, forceSetTrailers)
 	}
 
